@@ -45,9 +45,8 @@ ASSUMPTIONS = [
     "user GDEF blocks that define LigatureCaret statements: caret clause not judged (counted)",
     "two dedicated strata (duplicate caret anchor names, 2 %; categories that leave every exported "
     "glyph unassigned + user GDEF block without GlyphClassDef + mark anchors, 1 %) reproduce "
-    "mechanisms that disagree with the statement on the unchanged tree; each is generated only "
-    "while its key is listed in known_findings.json (DESIGN section 6: one stratum per listed "
-    "mechanism) or when VERIF_C18_ALL_STRATA=1; the default stratum avoids both",
+    "mechanisms that disagree with the statement on the unchanged tree (listed in "
+    "known_findings.json); the default stratum avoids both",
 ]
 NONVACUITY = ["class_glyphs_judged", "class_fonts_judged", "class_invalid_values", "class_ghost_entries",
               "class_skipped_entries", "user_gdef_class_fonts", "caret_glyphs_judged",
@@ -66,19 +65,9 @@ _LISTED = None
 
 
 def _stratum_active(key):
-    """DESIGN section 6: one small dedicated stratum per LISTED mechanism.  The two strata above
-    are generated only once their key is listed in known_findings.json (or when
-    VERIF_C18_ALL_STRATA=1 forces them), so the default run stays silent on the unchanged tree."""
-    global _LISTED
-    if os.environ.get("VERIF_C18_ALL_STRATA") == "1":
-        return True
-    if _LISTED is None:
-        try:
-            data = json.load(open(os.path.join(vf.VERIF, "known_findings.json")))
-            _LISTED = {e.get("key") for e in data.get("findings", []) if e.get("property") == ID}
-        except (OSError, ValueError):
-            _LISTED = set()
-    return key in _LISTED
+    """The dedicated strata are always generated (DESIGN section 6): a listed finding keeps being
+    re-exercised, and a finding that disappears is noticed."""
+    return True
 
 
 VALID = {"unassigned": 0, "base": 1, "ligature": 2, "mark": 3, "component": 4}
@@ -86,7 +75,7 @@ INVALID_VALUES = ["Mark", "bases", "", "none", "Ligature", "spacing", "MARK", "0
 
 
 def n_cases(tier):
-    return 3000 if tier == "quick" else 50000
+    return 3000 if tier == "quick" else 40000
 
 
 def budget_s(tier):
